@@ -142,7 +142,9 @@ def m_length_memo_unseen_edit(d):
     t = d["tags"]
     if t.get("kind") != "stale" or t.get("measure") not in ("length", "point(0.3)"):
         return False
-    if t.get("src") not in ("path", "path2", "rect", "circle", "ellipse", "sline", "polyline", "polygon"):
+    if t.get("src") not in ("path", "path2", "rect", "circle", "ellipse", "sline", "polyline", "polygon",
+                            # the same kinds of object built another way (keyword / dict constructor, zero sizes)
+                            "path-kw", "path-dict", "path-zeros", "rect-zeros", "circle-zero", "ellipse-zero"):
         return False
     muts = t.get("muts") or []
     last_unseen = max([i for i, m in enumerate(muts) if m in UNSEEN] or [-1])
